@@ -291,13 +291,14 @@ def kani_playback(ws, crate, harness, features=None, timeout=600, solver=None, m
             new = open(p).read()
             if new != old:
                 for m in re.finditer(
-                        r"(?:/// Check for [^\n]*\n)*#\[test\]\s*\nfn (kani_concrete_playback_\w+)\(\) \{.*?\n\}\n",
+                        r"((?:///[^\n]*\n)*)\s*#\[test\]\s*\nfn (kani_concrete_playback_\w+)\(\) \{.*?\n\}\n",
                         new, re.S):
-                    if m.group(0) not in old:
-                        tests.append({"file": os.path.relpath(p, ws.ws), "name": m.group(1),
-                                      "text": m.group(0)})
-        # keep only the tests generated for failing assertions (Kani also emits one per cover)
-        fail_tests = [t for t in tests if "Check for `cover`" not in t["text"]] or tests
+                    if m.group(2) not in old:
+                        mc = re.search(r"Check for `(\w+)`: \"?([^\n\"]*)", m.group(1))
+                        tests.append({"file": os.path.relpath(p, ws.ws), "name": m.group(2), "text": m.group(0).lstrip(),
+                                      "check_kind": mc.group(1) if mc else None, "check": mc.group(2) if mc else None})
+        # keep only the tests generated for failing checks (Kani also emits one per cover property)
+        fail_tests = [t for t in tests if t["check_kind"] != "cover"] or tests
         if not fail_tests:
             return {"tests": [], "native_failed": None, "native_output": out[-3000:], "timed_out": to}
         if not run_native:
@@ -307,13 +308,17 @@ def kani_playback(ws, crate, harness, features=None, timeout=600, solver=None, m
         pb = ["cargo", "kani", "playback", "-Z", "concrete-playback", "-p", crate]
         if features:
             pb += ["--features", features]
-        pb += ["--lib", "--"] + [fail_tests[0]["name"]]
+        pb += ["--lib", "--", "kani_concrete_playback_"]
         rc2, out2, to2, _ = run(pb, cwd=ws.ws, timeout=timeout,
                                 env={"CARGO_TARGET_DIR": os.path.join(target, "playback")})
     native_failed = None
     m = re.search(r"test result: (\w+)\. (\d+) passed; (\d+) failed", out2)
     if m:
-        native_failed = int(m.group(3)) > 0
+        # every generated test (one per failed check) is executed; a failure of any of the tests
+        # generated for failing checks reproduces the violation on the natively compiled code
+        failed_names = re.findall(r"test \S*?(kani_concrete_playback_\w+) \.\.\. FAILED", out2)
+        native_failed = any(t["name"] in failed_names for t in fail_tests)
+        fail_tests = sorted(fail_tests, key=lambda t: t["name"] not in failed_names)
     return {"tests": fail_tests, "native_failed": native_failed, "native_output": out2[-4000:],
             "timed_out": to or to2}
 
